@@ -35,7 +35,7 @@ def R(what):
 
 PROPS = {
     "C01": {"level": "exploration", "trigger": ["c01.mutations"],
-        "batches": [sim("negprio", 24, 240), sim("healthleak", 72, 720), sim("fastbeat", 75, 750), sim("slowbeat", 50, 500), sim("benign", 150, 3000), sim("faulty", 150, 4000), sim("lifecycle", 100, 2000), sim("multiterm", 100, 2000), sim("priorace", 100, 2000), sim("c06", 144, 2880), sim("leftover", 60, 600), sim("yieldstop", 190, 570), sim("connection", 200, 3000), sim("holdrace", 350, 3500), sim("twocause", 126, 126), sim("outage", 24, 240), sim("slowdemote", 126, 252), sim("doublestop", 18, 180), sim("blindrelease", 16, 160), sim("chaintakeover", 24, 240), sim("newlogline", 48, 96)],
+        "batches": [sim("dupacquire", 72, 720), sim("acklosttakeover", 12, 120), sim("negprio", 24, 240), sim("healthleak", 72, 720), sim("fastbeat", 75, 750), sim("slowbeat", 50, 500), sim("benign", 150, 3000), sim("faulty", 150, 4000), sim("lifecycle", 100, 2000), sim("multiterm", 100, 2000), sim("priorace", 100, 2000), sim("c06", 144, 2880), sim("leftover", 60, 600), sim("yieldstop", 190, 570), sim("connection", 200, 3000), sim("holdrace", 350, 3500), sim("twocause", 126, 126), sim("outage", 24, 240), sim("slowdemote", 126, 252), sim("doublestop", 18, 180), sim("blindrelease", 16, 160), sim("chaintakeover", 24, 240), sim("newlogline", 48, 96)],
         "min": {"quick": {"c01.refreshes": 200, "c01.takeovers": 20, "c01.shutdown_deletes": 20, "c01.expiries": 20}},
         "rule": R("oracle over the complete caller-tagged mutation log of the reference store: every successful Create/Update/Delete must fit creation / refresh / legitimate takeover / owner's shutdown delete"), "assumptions": SIM_ASSUME},
     "C02": {"level": "exploration", "trigger": ["c02.flag_up"],
@@ -51,7 +51,7 @@ PROPS = {
         "min": {"quick": {"c04.true": 100, "c04.false": 300, "c04.calls_with_change_inside": 20}},
         "rule": R("hostile class: outside party rewrites the record with a 29-production payload grammar (incl. malformed values that begin with or wrap a well-formed own record), deletes/expires it, Get faults, probes with background/cancelled/deadline contexts, probes parked inside their Get while the record changes; oracle: verdict vs. record versions live during the call interval"), "assumptions": SIM_ASSUME},
     "C05": {"level": "exploration", "trigger": ["c05.acquisitions"],
-        "batches": [sim("healthleak", 72, 720), sim("fastbeat", 75, 750), sim("slowbeat", 50, 500), sim("multiterm", 200, 4000), sim("benign", 100, 2000), sim("faulty", 100, 2000), sim("priorace", 60, 1500), sim("lifecycle", 100, 2000), sim("stoppoints", 150, 1000), sim("sinkrace", 54, 270), sim("holdrace", 350, 3500), sim("twocause", 126, 126), sim("dupacquire", 36, 360), sim("newlogline", 48, 96)],
+        "batches": [rt("rt", 16, 200, chunk=2, timeout=1200), sim("acklosttakeover", 12, 120), sim("healthleak", 72, 720), sim("fastbeat", 75, 750), sim("slowbeat", 50, 500), sim("multiterm", 200, 4000), sim("benign", 100, 2000), sim("faulty", 100, 2000), sim("priorace", 60, 1500), sim("lifecycle", 100, 2000), sim("stoppoints", 150, 1000), sim("sinkrace", 54, 270), sim("holdrace", 350, 3500), sim("twocause", 126, 126), sim("dupacquire", 72, 720), sim("newlogline", 48, 96)],
         "min": {"quick": {"c05.refreshes": 2000, "c05.acquisitions": 300, "c05.insts_3terms": 50}},
         "rule": R("oracle over every record version ever written (process-wide token set across scenarios), promotion callback arguments and Token()/Status() at quiescent points"), "assumptions": SIM_ASSUME},
     "C06": {"level": "fault_enumeration", "trigger": ["c06.obligations"],
@@ -63,7 +63,7 @@ PROPS = {
         "min": {"quick": {"c07.terms": 300, "c07.terms_20h": 100}},
         "rule": R("benign class (see C02); oracle: no term ends, no token change, no lapse/owner change of a claiming leader's record unless the harness stopped it"), "assumptions": SIM_ASSUME},
     "C08": {"level": "exploration", "trigger": ["c08.promotes"],
-        "batches": [sim("fastbeat", 75, 750), sim("slowbeat", 50, 500), sim("multiterm", 200, 4000), sim("benign", 100, 2000), sim("faulty", 100, 2000), sim("connection", 60, 1000), sim("health2", 60, 1000), sim("hostile", 60, 1000), sim("lifecycle", 60, 1500), sim("restartinflight", 72, 216), sim("yieldstop", 190, 570), sim("leftover", 60, 600), sim("twocause", 126, 126), sim("holdrace", 350, 3500), sim("slowdemote", 126, 252), sim("dupacquire", 36, 360), sim("ctxcancel", 36, 360), sim("nowaitrestart", 18, 180), sim("newlogline", 48, 96)],
+        "batches": [sim("promoterace", 16, 160), sim("fastbeat", 75, 750), sim("slowbeat", 50, 500), sim("multiterm", 200, 4000), sim("benign", 100, 2000), sim("faulty", 100, 2000), sim("connection", 60, 1000), sim("health2", 60, 1000), sim("hostile", 60, 1000), sim("lifecycle", 60, 1500), sim("restartinflight", 72, 216), sim("yieldstop", 190, 570), sim("leftover", 60, 600), sim("twocause", 126, 126), sim("holdrace", 350, 3500), sim("slowdemote", 126, 252), sim("dupacquire", 72, 720), sim("ctxcancel", 36, 360), sim("nowaitrestart", 18, 180), sim("newlogline", 48, 96)],
         "min": {"quick": {"c08.promotes": 500, "c08.demotes": 300, "c08.quiescent_checks": 5000}},
         "rule": R("oracle over the ordered callback log: strict alternation, one promotion per term with its token, IsLeader == (promotions - demotions == 1) at every quiescent point outside stop calls"), "assumptions": SIM_ASSUME},
     "C09": {"level": "fault_enumeration", "trigger": ["c09.stop_calls"],
@@ -71,7 +71,7 @@ PROPS = {
         "min": {"quick": {"c09.stop_ok": 400, "c09.final_census": 500}},
         "rule": R("stoppoints enumerates (template cell: 20) x phase (issued-not-applied, applied-not-answered) x stop variant (17) x release delay (3) = 2040 cases (thorough: all); oracle: after the return of a successful stop no leadership claim, promotion, store-operation issue or transition; duration bounds; record gone with DeleteKey; no library goroutine left at the end"), "assumptions": SIM_ASSUME},
     "C10": {"level": "exploration", "trigger": ["c10.takeovers", "c10.refused", "c10.prompt_obligations"],
-        "batches": [sim("negprio", 24, 240), sim("priority", 405, 1620), sim("priorace", 150, 3000), sim("multiterm", 60, 1000), sim("refusedthen", 16, 160), sim("priosucc", 256, 1536), sim("holdrace", 350, 3500), sim("chaintakeover", 24, 240)],
+        "batches": [sim("acklosttakeover", 12, 120), sim("negprio", 24, 240), sim("priority", 405, 1620), sim("priorace", 150, 3000), sim("multiterm", 60, 1000), sim("refusedthen", 16, 160), sim("priosucc", 256, 1536), sim("holdrace", 350, 3500), sim("chaintakeover", 24, 240)],
         "min": {"quick": {"c10.takeovers": 100, "c10.prompt_obligations": 50}},
         "rule": R("priority class enumerates all assignments of priority {1,2,3} x takeover flag x start order for 2 instances (108) and 3 instances (1512) (thorough: all, exhaustive); priorace adds takeover racing the incumbent's heartbeat; oracle: safety over every replacement of a live record, promptness 3H and final owner/stability in the fault-free class"), "assumptions": SIM_ASSUME},
     "C11": {"level": "fault_enumeration", "trigger": ["c11.notifications"],
@@ -87,11 +87,11 @@ PROPS = {
         "min": {"quick": {"c13.outside.Put": 300, "c13.tamper_under_leader": 50}},
         "rule": R("hostile class (see C04) for followers, leaders and takeover-enabled candidates, zero and non-zero latency; oracle: crash / stack overflow / stall / recursion census, claims must stem from the instance's own acquisition write, tampered leader demoted within the C03(a) bound"), "assumptions": SIM_ASSUME},
     "C18": {"level": "exploration", "trigger": ["c18.snapshots"],
-        "batches": [sim("fastbeat", 75, 750), sim("slowbeat", 50, 500), sim("benign", 100, 2000), sim("faulty", 100, 2000), sim("multiterm", 100, 2000), sim("lifecycle", 60, 1500), sim("priorace", 60, 1000), sim("connection", 60, 1000), sim("hostile", 60, 1000), sim("restartinflight", 72, 216), sim("slowsink", 57, 570), sim("holdrace", 350, 3500), sim("ctxcancel", 36, 360), sim("newlogline", 48, 96)],
+        "batches": [rt("rt", 16, 200, chunk=2, timeout=1200), sim("promoterace", 16, 160), sim("fastbeat", 75, 750), sim("slowbeat", 50, 500), sim("benign", 100, 2000), sim("faulty", 100, 2000), sim("multiterm", 100, 2000), sim("lifecycle", 60, 1500), sim("priorace", 60, 1000), sim("connection", 60, 1000), sim("hostile", 60, 1000), sim("restartinflight", 72, 216), sim("slowsink", 57, 570), sim("holdrace", 350, 3500), sim("ctxcancel", 36, 360), sim("newlogline", 48, 96)],
         "min": {"quick": {"c18.snapshots": 5000, "c18.transitions": 1000}},
         "rule": R("oracle over Status() snapshots at quiescent points (synctest.Wait), the recording Metrics (is-leader gauge, transition chain) and the store log"), "assumptions": SIM_ASSUME},
     "C19": {"level": "exploration", "trigger": ["c19.ended_checks"],
-        "batches": [sim("latepromote", 8, 80), sim("ctxcancel", 36, 360), sim("fastbeat", 75, 750), sim("slowbeat", 50, 500), sim("multiterm", 250, 4000), sim("benign", 100, 1500), sim("connection", 60, 1000), sim("lifecycle", 100, 1500), sim("stoppoints", 200, 1000), sim("yieldstop", 190, 570), sim("restartinflight", 72, 216), sim("holdrace", 350, 3500), sim("lateregister", 24, 240), sim("slowdemote", 126, 252), sim("dupacquire", 36, 360), sim("newlogline", 48, 96)],
+        "batches": [sim("promoterace", 16, 160), sim("latepromote", 8, 80), sim("ctxcancel", 36, 360), sim("fastbeat", 75, 750), sim("slowbeat", 50, 500), sim("multiterm", 250, 4000), sim("benign", 100, 1500), sim("connection", 60, 1000), sim("lifecycle", 100, 1500), sim("stoppoints", 200, 1000), sim("yieldstop", 190, 570), sim("restartinflight", 72, 216), sim("holdrace", 350, 3500), sim("lateregister", 24, 240), sim("slowdemote", 126, 252), sim("dupacquire", 72, 720), sim("newlogline", 48, 96)],
         "min": {"quick": {"c19.ended_checks": 100}},
         "rule": R("promotion callbacks that block on their context; oracle: Done() state of each term's context at quiescent points vs. the term's end"), "assumptions": SIM_ASSUME},
 
